@@ -59,6 +59,9 @@ func (caller serverInitCaller) Call(s *slip.Scope, args slip.List, depth int) sl
 	}
 	server := http.Server{Handler: http.NewServeMux()}
 	obj.Any = &server
+	if len(args)%2 != 0 {
+		slip.ErrorPanic(s, depth, "extra arguments that are not keyword and value pairs")
+	}
 	for i := 0; i < len(args); i += 2 {
 		key, _ := args[i].(slip.Symbol)
 		k := string(key)
